@@ -66,6 +66,10 @@ static std::vector<Op> buildAlphabet(const std::string& name, Limits& L, const s
             for (auto t : {"app", "0", "n+1"}) A.push_back(opFrame(d, t, 0, L));
         for (auto w : {"both", "pt", "an"}) A.push_back(opFrameFree(w, 0, L));
         A.push_back(opFrameEmpty(L));
+        if (thorough) {   // pairs of deviations
+            std::vector<std::string> dv = {"pt_extra", "pt_missing", "pt_renamed", "ch_extra", "ch_missing", "sub_extra", "an_none"};
+            for (size_t i = 0; i < dv.size(); ++i) for (size_t j = i + 1; j < dv.size(); ++j) A.push_back(opFrame(dv[i] + "+" + dv[j], "app", 0, L));
+        }
         for (auto d : {"ok", "ok2", "fewer", "more", "none", "nocol", "dup", "dup2"}) A.push_back(opColPoint(d, 0, L));
         for (auto d : {"ok", "ok2", "fewer", "more", "none", "nocol", "sub_fewer", "sub_more", "dup", "dup2"}) A.push_back(opColAnalog(d, 0, L));
         A.push_back(opReload());
